@@ -24,6 +24,8 @@ import (
 // invocation's result (reply, write-set, event) is compared with the same invocation run alone on
 // the same committed state.
 
+var agedTo int
+
 func init() { Registry["C17"] = &Prop{Gen: genC17, New: func() Executor { return &c17ex{} }} }
 
 type c17ex struct {
@@ -149,6 +151,27 @@ func (e *c17ex) Exec(op string) string {
 			return "bad-op"
 		}
 		e.c.L.State[w[1]] = []byte(w[2])
+		return "ok"
+	case "age":
+		// an old process: the shim starts one goroutine per transaction, so goroutine ids grow with
+		// uptime; burn ids until the runtime has handed out at least n of them
+		if len(w) != 2 {
+			return "bad-op"
+		}
+		n, err := strconv.Atoi(w[1])
+		if err != nil || n < 0 || n > 50000000 {
+			return "bad-op"
+		}
+		for agedTo < n {
+			var wg sync.WaitGroup
+			k := 20000
+			wg.Add(k)
+			for i := 0; i < k; i++ {
+				go wg.Done()
+			}
+			wg.Wait()
+			agedTo += k
+		}
 		return "ok"
 	case "conc":
 		if e.c == nil || len(w) < 4 || len(w) > 5 {
@@ -360,7 +383,26 @@ func genC17(c *Cfg, emit func([]string)) {
 	if len(h) > 3 {
 		emit(h)
 	}
+	h = nil
+	// (e) the same on an old process: more than 10^6 (thorough: 10^7) goroutines served before, so
+	// that goroutine ids have seven (eight) digits and neighbouring invocations share a long prefix
+	age := "1000000"
+	if c.Thorough() {
+		age = "10000000"
+	}
+	for _, ka := range kinds {
+		for _, kb := range kinds {
+			hh := []string{"reset", "seed k1 x0", "seed k2 y0", "age " + age}
+			for _, sch := range interleave([]int{2, 2}) {
+				hh = append(hh, fmt.Sprintf("conc %s %s=%s %s=%s", sch, ka, scripts2[0], kb, scripts2[1]))
+				count++
+			}
+			hh = append(hh, fmt.Sprintf("conc %s %s=%s %s=%s %s=%s", all3[c.Rng.Intn(len(all3))], ka, scripts2[2], kb, scripts2[3], ka, scripts2[4]))
+			count++
+			emit(hh)
+		}
+	}
 	c.Exhaustive = true
-	c.Rule = fmt.Sprintf("%d concurrent runs on one chaincode instance: (a) two invocations, every pair of kinds {immediate method, batchExecute, executeTasks} x scripted bodies of two stub operations each, ALL %d interleavings of their switch points (one immediately before every GetStub()); (b) a swap completion running in between; (c) three invocations under schedules of 2+2+2 switch points (%s); (d) bodies of four operations under sampled schedules. Each invocation runs on its own goroutine with its own simulated transaction; reply, write-set and event are compared with the same invocation run alone. non-trivial = every concurrent run; distinct = sha256", count, len(interleave([]int{2, 2})), map[bool]string{true: "all 90, six kind/body assignments each", false: "60 sampled"}[c.Thorough()])
+	c.Rule = fmt.Sprintf("%d concurrent runs on one chaincode instance: (a) two invocations, every pair of kinds {immediate method, batchExecute, executeTasks} x scripted bodies of two stub operations each, ALL %d interleavings of their switch points (one immediately before every GetStub()); (b) a swap completion running in between; (c) three invocations under schedules of 2+2+2 switch points (%s); (d) bodies of four operations under sampled schedules; (e) every pair of kinds under all schedules again on an aged process (goroutine ids beyond 10^6, thorough 10^7). Each invocation runs on its own goroutine with its own simulated transaction; reply, write-set and event are compared with the same invocation run alone. non-trivial = every concurrent run; distinct = sha256", count, len(interleave([]int{2, 2})), map[bool]string{true: "all 90, six kind/body assignments each", false: "60 sampled"}[c.Thorough()])
 	c.Extra = map[string]any{"concurrent_runs": count}
 }
